@@ -112,6 +112,8 @@ class Reg(Logic):
     def structureName(self):
         msg = 'Reg{}'.format(self.q.getWidth())
         
+        # registers whose d width differs cannot share a module
+        if (self.d.getWidth() != self.q.getWidth()): msg += '_{}'.format(self.d.getWidth())
         if not(self.r is None): msg += 'R'
         if not(self.e is None): msg += 'E'
         if not(self.reset_value == 0): msg += '_v{}'.format(self.reset_value).replace('-', 'm') # must be an identifier
